@@ -40,10 +40,15 @@ func main() {
 	r := vh.Start("C08")
 	defer r.Finish()
 
+	tk := time.Now()
 	kDepth(r)
 	kPageNumber(r)
+	fmt.Fprintf(os.Stderr, "K depth+pagenumber %v\n", time.Since(tk))
 	kParse(r)
+	fmt.Fprintf(os.Stderr, "K parse %v\n", time.Since(tk))
 	kIndexed(r)
+	kBER(r)
+	fmt.Fprintf(os.Stderr, "K all %v\n", time.Since(tk))
 	search(r)
 }
 
@@ -555,6 +560,10 @@ func search(r *vh.Run) {
 		addJob("gen-"+g.name, g.data, []string{"read", "vstrict", "vrelaxed", "optimize", "info", "pages"}, "xrefStreamDocs: "+g.name, "")
 		r.Count("input:xrefstream")
 	}
+	// 2c. signatures: BER/CMS payloads over the /Contents of the shipped signed samples (sigmut.go)
+	ts := time.Now()
+	sigJobs(r, repo, addJob)
+	fmt.Fprintf(os.Stderr, "sig job preparation %v\n", time.Since(ts))
 	// 3. mutation stream
 	seeds := loadSeeds(r, repo, filepath.Join(bdir, "seedcache"))
 	r.CountN("seeds", len(seeds))
